@@ -21,7 +21,7 @@ LEVELS = {
        "the sign of a genuinely perturbed determinant for all small eps (polynomial identity + lowest-coefficient lemma); distance "
        "predicates antisymmetric and exact. The float cascade is exact GIVEN its error bounds (theorems …_given_error_bound). Partial: "
        "sufficiency of the error constants is searched (stage result non-zero => equals exact sign) on adversarial triples.",
-  note=COMMON_NOTE + "Not proved: the float error constants themselves; global (n-point) consistency of the perturbation (checked on 4-/5-tuples via Grassmann-Pluecker)."),
+  note=COMMON_NOTE + "Global (n-point) consistency of the symbolic perturbation is proved (C02_Global.lean: sos_global_holds; C02_Chirotope.lean: the decision is a realisable chirotope, Grassmann-Pluecker and Knuth axioms for ALL integer vectors). Not proved: the float error constants themselves."),
  "C03": dict(
   technique="Lean 4 refinement proof: EdgeCrosser state machine = stateless exact crossing for every op history; symmetry and vertex-rule theorems; bit-exact correspondence",
   text="Proof: symmetry of the exact four-orientation criterion, VertexCrossing rules, 'exactly one of two edges at a shared vertex', and "
@@ -69,7 +69,7 @@ LEVELS = {
   technique="Lean 4 theorems on bound composition and the monotone-chain hull over abstract orientation laws + exact membership judge on computed lat/lng",
   text="Proof: composition of per-edge bounds, pole handling logic, convex hull convexity/containment under orientation axioms. Partial: "
        "RectBounder / cap / cell padding constants are searched with extremal probes judged exactly.",
-  note=COMMON_NOTE + "The orientation axioms of the hull are discharged for point sets in general position inside an open half-space (Grassmann-Pluecker, C10_Exact.lean); the degenerate (symbolically perturbed) case is stated, not proved."),
+  note=COMMON_NOTE + "The orientation axioms of the hull are discharged for point sets in general position inside an open half-space (Grassmann-Pluecker, C10_Exact.lean); and for ALL (also degenerate) point sets in an open half-space via the global perturbation theorem (C10_Degenerate.lean)."),
  "C11": dict(
   technique="Lean 4 theorems: Normalize = unique normal form preserving the leaf set; every CellUnion operation = leaf-set operation; minimal tilings (all inputs) + correspondence",
   text="Proof (full): normalize preserves leaves, output normalized, unique and minimal; containment/intersection tests, union, "
